@@ -286,25 +286,27 @@ int detect_alignment_format(struct in_buffer*b,int* type)
                 line_len--;
                 if(line[0] == '>'){
                         hints[0]++; /* fasta */
-                }
-
-                if(strstr(line, "multiple sequence alignment")){
-                        hints[2]++; /* clustal format  */
-                }
-                if(strstr(line, "CLUSTAL W")){
-                        hints[2]++; /* clustal format  */
-                }
-                if(strstr(line, "CLUSTAL O")){
-                        hints[2]++; /* clustal format  */
-                }
-                if(strstr(line, "!!AA_MULTIPLE_ALIGNMENT")){
-                        hints[1]++;
-                }
-                if(strstr(line, "!!NA_MULTIPLE_ALIGNMENT")){
-                        hints[1]++;
-                }
-                if(strstr(line, "MSF:")){
-                        hints[1]++;
+                }else{
+                        /* the name / comment of a fasta record is free text: look for the
+                           keywords of the other formats only outside such lines */
+                        if(strstr(line, "multiple sequence alignment")){
+                                hints[2]++; /* clustal format  */
+                        }
+                        if(strstr(line, "CLUSTAL W")){
+                                hints[2]++; /* clustal format  */
+                        }
+                        if(strstr(line, "CLUSTAL O")){
+                                hints[2]++; /* clustal format  */
+                        }
+                        if(strstr(line, "!!AA_MULTIPLE_ALIGNMENT")){
+                                hints[1]++;
+                        }
+                        if(strstr(line, "!!NA_MULTIPLE_ALIGNMENT")){
+                                hints[1]++;
+                        }
+                        if(strstr(line, "MSF:")){
+                                hints[1]++;
+                        }
                 }
                 line_number++;
                 if(line_number == 100){
